@@ -783,68 +783,68 @@ Proof.
   destruct o; cbn [covered] in Hco; try contradiction; cbn [spec_step] in Hrest |- *.
   - (* RBytes *)
     destruct (Nat.eqb_spec n 0) as [Hz|Hnz].
-    { eapply (Hclose _ sp _ s); [cbn [step]; destruct (Nat.eqb_spec n 0); [reflexivity|lia]|reflexivity|exact Hwf|exact Hc
+    { eapply (Hclose _ sp _ s); [cbn [step_gen]; destruct (Nat.eqb_spec n 0); [reflexivity|lia]|reflexivity|exact Hwf|exact Hc
                                 |reflexivity|reflexivity|exact Hrest]. }
     rewrite (spec_more_enough n sp) in Hrest |- * by lia.
     destruct (read_bytes_refines (mem s) n (rcv s) Hwf) as [l1 [Hr [Hc1 Hwf1]]]; [lia|lia|].
     destruct (rd_op_ok s (fun m l => read_bytes m n l) RData _ l1 _ Hr Hwf1 Hc1) as [s' [Hst [Hwf' [Hc' [Hs' _]]]]].
-    eapply Hclose; [cbn [step]; destruct (Nat.eqb_spec n 0); [lia|]; rewrite read_more_enough by lia; cbn [bind]; exact Hst
+    eapply Hclose; [cbn [step_gen]; destruct (Nat.eqb_spec n 0); [lia|]; rewrite read_more_enough by lia; cbn [bind]; exact Hst
                    |rewrite Hc; reflexivity|exact Hwf'|rewrite Hc', Hc; reflexivity|exact Hs'|reflexivity|exact Hrest].
   - (* RPeek *)
     destruct (Nat.eqb_spec n 0) as [Hz|Hnz].
-    { eapply (Hclose _ sp _ s); [cbn [step]; destruct (Nat.eqb_spec n 0); [reflexivity|lia]|reflexivity|exact Hwf|exact Hc
+    { eapply (Hclose _ sp _ s); [cbn [step_gen]; destruct (Nat.eqb_spec n 0); [reflexivity|lia]|reflexivity|exact Hwf|exact Hc
                                 |reflexivity|reflexivity|exact Hrest]. }
     rewrite (spec_more_enough n sp) in Hrest |- * by lia.
     destruct (peek_refines (mem s) n (rcv s) Hwf) as [l1 [Hr [Hs1 [Hl1 _]]]]; [lia|lia|].
     assert (Hwf1 : WF (mem s) l1) by (apply (WF_fields (mem s) (rcv s)); assumption).
     assert (Hc1 : content (mem s) l1 = content (mem s) (rcv s)) by (unfold content; rewrite Hs1; reflexivity).
     destruct (rd_op_ok s (fun m l => peek m n l) RData _ l1 _ Hr Hwf1 Hc1) as [s' [Hst [Hwf' [Hc' [Hs' _]]]]].
-    eapply Hclose; [cbn [step]; destruct (Nat.eqb_spec n 0); [lia|]; rewrite read_more_enough by lia; cbn [bind]; exact Hst
+    eapply Hclose; [cbn [step_gen]; destruct (Nat.eqb_spec n 0); [lia|]; rewrite read_more_enough by lia; cbn [bind]; exact Hst
                    |rewrite Hc; reflexivity|exact Hwf'|rewrite Hc', Hc; reflexivity|exact Hs'|reflexivity|exact Hrest].
   - (* RDiscard *)
     rewrite (spec_more_enough n sp) in Hrest |- * by lia.
     destruct (Nat.eqb_spec n 0) as [Hz|Hnz].
-    { subst n. eapply (Hclose _ (with_av sp (skipn 0 (av sp))) _ s); [cbn [step Nat.eqb]; reflexivity|reflexivity|exact Hwf|exact Hc
+    { subst n. eapply (Hclose _ (with_av sp (skipn 0 (av sp))) _ s); [cbn [step_gen Nat.eqb]; reflexivity|reflexivity|exact Hwf|exact Hc
                                 |reflexivity|reflexivity|exact Hrest]. }
     destruct (discard_refines (mem s) n (rcv s) Hwf) as [l1 [Hr [Hc1 [Hwf1 _]]]]; [lia|].
     destruct (rd_op_ok s (fun _ l => discard n l) RN _ l1 _ Hr Hwf1 Hc1) as [s' [Hst [Hwf' [Hc' [Hs' _]]]]].
-    eapply Hclose; [cbn [step]; destruct (Nat.eqb_spec n 0); [lia|]; rewrite read_more_enough by lia; cbn [bind]; exact Hst
+    eapply Hclose; [cbn [step_gen]; destruct (Nat.eqb_spec n 0); [lia|]; rewrite read_more_enough by lia; cbn [bind]; exact Hst
                    |reflexivity|exact Hwf'|rewrite Hc', Hc; reflexivity|exact Hs'|reflexivity|exact Hrest].
   - (* RByte *)
     rewrite (spec_more_enough 1 sp) in Hrest |- * by lia.
     destruct (read_byte_refines (mem s) (rcv s) Hwf) as [b [l1 [Hr [Hc1 [Hwf1 _]]]]]; [lia|].
     rewrite Hc in Hc1. destruct (av sp) as [|b0 r0] eqn:Ea; [simpl in Hco; lia|]. injection Hc1 as <- Hc1.
     destruct (rd_op_ok s (fun m l => read_byte m l) RB _ l1 _ Hr Hwf1 (eq_sym Hc1)) as [s' [Hst [Hwf' [Hc' [Hs' _]]]]].
-    eapply Hclose; [cbn [step]; rewrite read_more_enough by (simpl in Hlen; lia); cbn [bind]; exact Hst
+    eapply Hclose; [cbn [step_gen]; rewrite read_more_enough by (simpl in Hlen; lia); cbn [bind]; exact Hst
                    |reflexivity|exact Hwf'|rewrite Hc'; reflexivity|exact Hs'|reflexivity|exact Hrest].
   - (* RString *)
     destruct (Nat.eqb_spec n 0) as [Hz|Hnz].
-    { eapply (Hclose _ sp _ s); [cbn [step]; destruct (Nat.eqb_spec n 0); [reflexivity|lia]|reflexivity|exact Hwf|exact Hc
+    { eapply (Hclose _ sp _ s); [cbn [step_gen]; destruct (Nat.eqb_spec n 0); [reflexivity|lia]|reflexivity|exact Hwf|exact Hc
                                 |reflexivity|reflexivity|exact Hrest]. }
     rewrite (spec_more_enough n sp) in Hrest |- * by lia.
     destruct (read_string_refines (mem s) n (rcv s) Hwf) as [l1 [Hr [Hc1 [Hwf1 _]]]]; [lia|lia|].
     destruct (rd_op_ok s (fun m l => read_string m n l) RData _ l1 _ Hr Hwf1 Hc1) as [s' [Hst [Hwf' [Hc' [Hs' _]]]]].
-    eapply Hclose; [cbn [step]; destruct (Nat.eqb_spec n 0); [lia|]; rewrite read_more_enough by lia; cbn [bind]; exact Hst
+    eapply Hclose; [cbn [step_gen]; destruct (Nat.eqb_spec n 0); [lia|]; rewrite read_more_enough by lia; cbn [bind]; exact Hst
                    |rewrite Hc; reflexivity|exact Hwf'|rewrite Hc', Hc; reflexivity|exact Hs'|reflexivity|exact Hrest].
   - (* RRead *)
     destruct (Nat.eqb_spec n 0) as [Hz|Hnz].
-    { eapply (Hclose _ sp _ s); [cbn [step]; destruct (Nat.eqb_spec n 0); [reflexivity|lia]|reflexivity|exact Hwf|exact Hc
+    { eapply (Hclose _ sp _ s); [cbn [step_gen]; destruct (Nat.eqb_spec n 0); [reflexivity|lia]|reflexivity|exact Hwf|exact Hc
                                 |reflexivity|reflexivity|exact Hrest]. }
     assert (Hpos : 0 < length (av sp)) by (destruct Hco; [lia|assumption]).
     rewrite (spec_more_enough 1 sp) in Hrest |- * by lia.
     destruct (read_copy_refines (mem s) n (rcv s) Hwf) as [l1 [Hr [Hc1 [Hwf1 _]]]]; [lia|].
     destruct (rd_op_ok s (fun m l => read_copy m n l) RData _ l1 _ Hr Hwf1 Hc1) as [s' [Hst [Hwf' [Hc' [Hs' _]]]]].
-    eapply Hclose; [cbn [step]; destruct (Nat.eqb_spec n 0); [lia|]; rewrite read_more_enough by lia; cbn [bind]; exact Hst
+    eapply Hclose; [cbn [step_gen]; destruct (Nat.eqb_spec n 0); [lia|]; rewrite read_more_enough by lia; cbn [bind]; exact Hst
                    |rewrite Hc; reflexivity|exact Hwf'|rewrite Hc', Hc; reflexivity|exact Hs'|reflexivity|exact Hrest].
   - (* RRelease *)
     pose proof (release_ok (mem s) (rcv s) Hwf) as Hrel.
     destruct (release (mem s) (rcv s)) as [m1 l1] eqn:Erel. destruct Hrel as [Hwf1 [Hc1 _]].
-    eapply (Hclose RUnit sp RUnit (with_mem_rcv s m1 l1)); [cbn [step]; rewrite Erel; reflexivity|reflexivity|exact Hwf1
+    eapply (Hclose RUnit sp RUnit (with_mem_rcv s m1 l1)); [cbn [step_gen]; rewrite Erel; reflexivity|reflexivity|exact Hwf1
                    |cbn [mem rcv with_mem_rcv]; rewrite Hc1; exact Hc|reflexivity|reflexivity|exact Hrest].
   - (* RReleaseReuse *)
     pose proof (release_reserve_ok (mem s) (rcv s) Hwf) as Hrel.
     destruct (release_reserve (mem s) (rcv s)) as [m1 l1] eqn:Erel. destruct Hrel as [Hwf1 [Hc1 _]].
-    eapply (Hclose RUnit sp RUnit (with_mem_rcv s m1 l1)); [cbn [step]; rewrite Erel; reflexivity|reflexivity|exact Hwf1
+    eapply (Hclose RUnit sp RUnit (with_mem_rcv s m1 l1)); [cbn [step_gen]; rewrite Erel; reflexivity|reflexivity|exact Hwf1
                    |cbn [mem rcv with_mem_rcv]; rewrite Hc1; exact Hc|reflexivity|reflexivity|exact Hrest].
 Qed.
 
@@ -888,7 +888,7 @@ Lemma discard0_ok : forall s, step s (RDiscard 0) = Ok (RN 0, s).
 Proof. reflexivity. Qed.
 
 Lemma reserve0_ok : forall s, step s (WReserve []) = Ok (RUnit, s).
-Proof. intros s. cbn [step reserve length Nat.eqb bind]. destruct s; reflexivity. Qed.
+Proof. intros s. cbn [step_gen reserve length Nat.eqb bind]. destruct s; reflexivity. Qed.
 
 Lemma size0_regression : agrees (init_sys [(16, 2)]) spec0 [RDiscard 0; OAlloc 16; WReserve []; RDiscard 0].
 Proof. vm_compute. repeat (eexists; repeat split). Qed.
@@ -983,7 +983,7 @@ Qed.
 
 Theorem step_same_data s o y s' : nonwriting o = true -> step s o = Ok (y, s') -> same_data (mem s) (mem s').
 Proof.
-  intros Hn H. destruct o; try discriminate Hn; cbn [step] in H.
+  intros Hn H. destruct o; try discriminate Hn; cbn [step_gen] in H.
   - destruct (n =? 0); [injection H as _ <-; apply same_data_refl|].
     destruct (read_more n s) as [s1| | |] eqn:E; cbn [bind] in H; try discriminate.
     apply read_more_same_data in E. apply rd_op_same_data in H. eapply same_data_trans; [apply E|exact H].
